@@ -117,6 +117,9 @@ func c13Scenarios() []goxScenario {
 		// a cursor of the enclosing scope fetched by a user function that runs once per record on every worker
 		goxScenario{Name: "outer-cursor-fetched-in-user-function-per-row", Files: map[string]string{"t.csv": big},
 			SQL: "DECLARE cur CURSOR FOR SELECT a FROM t; OPEN cur; DECLARE nxt FUNCTION (@x) AS BEGIN VAR @v; FETCH cur INTO @v; RETURN @v; END; SELECT COUNT(*) FROM (SELECT nxt(a) AS n FROM t) s WHERE n IS NOT NULL;", CPU: 3},
+		// the parser called from every worker: a user function that EXECUTEs a text, evaluated per record
+		goxScenario{Name: "execute-in-user-function-per-row", Files: map[string]string{"t.csv": big},
+			SQL: "DECLARE ex FUNCTION (@x) AS BEGIN VAR @r := 0; EXECUTE 'SELECT ' || @x || ' + 1 INTO @r;'; RETURN @r; END; SELECT a, ex(a) FROM t;", CPU: 3},
 		goxScenario{Name: "user-function-per-row", Files: map[string]string{"t.csv": big}, SQL: "DECLARE f FUNCTION (@x) AS BEGIN VAR @y := @x * 2; RETURN @y + 1; END; SELECT a, f(a) FROM t;", CPU: 3},
 	)
 	return sc
